@@ -113,12 +113,57 @@ program tra_test
 end program tra_test
 '''
 
+# loop bounds made of array inquiries, structure members and calls of a user
+# function (transformations that rewrite bounds one after the other)
+BOUNDS_SRC = '''\
+module c26b_mod
+  implicit none
+  type :: grid_type
+    integer :: first
+    integer :: last
+    integer :: stride
+  end type grid_type
+contains
+  function nact(x) result(num)
+    real, dimension(:), intent(in) :: x
+    integer :: num
+    num = size(x) / 2
+  end function nact
+
+  subroutine work2(a, b, grid)
+    real, dimension(:), intent(inout) :: a
+    real, dimension(:), intent(inout) :: b
+    type(grid_type), intent(in) :: grid
+    integer :: i
+    do i = lbound(a, 1), ubound(a, 1)
+      a(i) = 0.0
+    end do
+    do i = nact(a), ubound(a, 1)
+      a(i) = 1.0
+    end do
+    do i = lbound(b, 1), nact(b)
+      b(i) = 2.0
+    end do
+    do i = grid%first, grid%last, nact(b)
+      b(i) = 3.0
+    end do
+    do i = 1, nact(b) + 1, grid%stride
+      b(i) = 4.0
+    end do
+    do i = size(a), 1, -1 * nact(a)
+      a(i) = b(i)
+    end do
+  end subroutine work2
+end module c26b_mod
+'''
+
 TESTFILES = "src/psyclone/tests/test_files"
 
 PROGRAMS = {
     # name: (kind, argument)
     "generic": ("fortran", GENERIC_SRC),
     "nemo": ("nemo", NEMO_SRC),
+    "bounds": ("fortran", BOUNDS_SRC),
     "lfric-multikernel-dm": ("psykal", ("dynamo0.3", "dynamo0p3/4_multikernel_invokes.f90", True)),
     "lfric-builtin-nodm": ("psykal", ("dynamo0.3", "dynamo0p3/15.1.2_builtin_and_normal_kernel_invoke.f90", False)),
     "gocean-two-kernels": ("psykal", ("gocean1.0", "gocean1p0/single_invoke_two_kernels.f90", False)),
@@ -128,7 +173,7 @@ PROGRAMS = {
     "gocean-three-dm": ("psykal", ("gocean1.0", "gocean1p0/single_invoke_three_kernels.f90", True)),
     "lfric-multikernel-nodm": ("psykal", ("dynamo0.3", "dynamo0p3/4_multikernel_invokes.f90", False)),
 }
-QUICK_PROGRAMS = ["generic", "nemo", "lfric-multikernel-dm", "lfric-builtin-nodm",
+QUICK_PROGRAMS = ["generic", "nemo", "bounds", "lfric-multikernel-dm", "lfric-builtin-nodm",
                   "gocean-two-kernels"]
 
 
